@@ -165,6 +165,18 @@ class H5Machine(Machine):
         super().assign(t, v)
 
 
+    def delete(self, t):
+        if isinstance(t, ast.Subscript):
+            base = self.ev(t.value)
+            if isinstance(base, (Group, Attrs)):
+                k = self.ev(t.slice)
+                if k not in base.items:
+                    raise Raised(f"KeyError: {render(k)}")
+                del base.items[k]
+                return
+        super().delete(t)
+
+
 BUILTINS_TRUE = ("h5py.File", "h5py.Group")
 
 
